@@ -1,5 +1,7 @@
-"""Syntactic frame obligations (S): mechanical scans of call sites in the real files.
-Each function returns a list of {id, status: discharged|failed|undecided, where, message}."""
+"""Syntactic frame obligations (S): mechanical scans of call sites in the real files, used only where a property part is purely
+structural and the code is outside both verifiers (iterator adapters, closures over trait objects, BTreeMap iteration).
+Each function returns a list of {id, status: discharged|failed|undecided, where, message}.  They are reported in their own
+evidence field (`structural_checks`) and never counted as proved obligations."""
 import os
 import re
 
@@ -12,3 +14,202 @@ def _load(repo, rel):
         return None, None
     src = open(p, encoding="utf-8").read()
     return src, L.mask_code(src)
+
+
+def _fn_body(src, masked, name, impl_type=None, trait=None):
+    try:
+        loc = L.find_fn(src, masked, name, impl_type, trait)
+    except LookupError:
+        return None, None, None
+    return src[loc.body_open:loc.end], masked[loc.body_open:loc.end], L.line_of(src, loc.start)
+
+
+def _enclosing_fn(src, masked, pos):
+    """name of the innermost `fn` whose body contains pos"""
+    best = None
+    for m in re.finditer(r"\bfn\s+(\w+)", masked):
+        if m.start() > pos:
+            break
+        i = masked.find("{", m.end())
+        semi = masked.find(";", m.end())
+        if i < 0 or (0 <= semi < i):
+            continue
+        try:
+            close = L.match_close(masked, i)
+        except ValueError:
+            continue
+        if i < pos < close:
+            best = m.group(1)
+    return best
+
+
+def _res(oid, ok, where, msg, undecided=False):
+    return {"id": oid, "status": "undecided" if undecided else ("discharged" if ok else "failed"), "where": where, "message": msg, "kind": "S"}
+
+
+# ------------------------------------------------------------------------------------------------ C05
+def s_fs_sinks_flow_from_confinement(repo):
+    rel = "src/receiver/writer/objectwriterfs.rs"
+    src, masked = _load(repo, rel)
+    out = []
+    if src is None:
+        return [_res("C05.S.fs_sinks", False, rel, "file missing", True)]
+    body, mbody, line = _fn_body(src, masked, "open", "ObjectWriterFS", "ObjectWriter")
+    if body is None:
+        return [_res("C05.S.fs_sinks", False, rel, "ObjectWriterFS::open not found (lost anchor)", True)]
+    # 1. the destination is bound from confined_destination(&self.dest, ..) and from nothing else
+    binds = re.findall(r"let\s+(?:mut\s+)?destination\b[^;]*?=\s*([^;]*?);", mbody, re.S)
+    ok1 = len(binds) == 1 and re.match(r"match\s+confined_destination\(\s*&self\.dest\s*,", binds[0].strip()) is not None \
+        and re.search(r"(?<![\.\w])destination\s*=[^=>]", re.sub(r"let\s+(?:mut\s+)?destination\b[^=]*=", "", mbody)) is None \
+        and re.search(r"Some\(destination\)\s*=>\s*destination\s*,", mbody) is not None
+    out.append(_res("C05.S.open.destination_comes_from_confined_destination", ok1, "%s:%d" % (rel, line),
+                    "`destination` in ObjectWriterFS::open must be bound exactly once, by `match confined_destination(&self.dest, ..)`, and never reassigned"))
+    # 2. every filesystem sink of the file takes a path derived from `destination`
+    sinks = [(m.start(), m.group(0)) for m in re.finditer(r"\b(?:std::fs::|fs::)?(?:File::(?:create|create_new|open|options)|OpenOptions\b|create_dir_all|create_dir|remove_file|remove_dir_all|remove_dir|rename|copy|hard_link|write|set_permissions|symlink)\s*\(", masked)
+             if "fs::" in m.group(0) or "File::" in m.group(0) or "OpenOptions" in m.group(0)]
+    allowed = {
+        "create_dir_all": r"create_dir_all\(\s*parent\s*\)",
+        "File::create": r"File::create\(\s*&destination\s*\)",
+        "remove_file": r"remove_file\(\s*inner\.destination\.as_ref\(\)\.unwrap\(\)\s*\)",
+    }
+    bad = []
+    for pos, tok in sinks:
+        seg = masked[pos:pos + 120]
+        if not any(re.match(r"(?:std::fs::|fs::)?" + rx, seg) for rx in allowed.values()):
+            bad.append("%s:%d %s" % (rel, L.line_of(src, pos), src[pos:pos + 60].split("\n")[0]))
+    out.append(_res("C05.S.only_known_fs_sinks", not bad and len(sinks) >= 3, rel,
+                    "filesystem sinks other than create_dir_all(parent), File::create(&destination), remove_file(inner.destination..): %s" % bad if bad else
+                    "%d sinks, all of the three known forms" % len(sinks)))
+    # 3. `parent` derives from destination.parent(); inner.destination is only ever Some(destination..) or None
+    ok3 = re.search(r"let\s+parent\s*=\s*destination\.parent\(\)\s*;", mbody) is not None
+    assigns = re.findall(r"inner\.destination\s*=(?!=)\s*(None\b|Some\([^;{}]*\)|[^;{}\n]*)", masked)
+    ok4 = all(re.match(r"\s*(None|Some\(destination\.to_path_buf\(\)\))\s*$", a) for a in assigns) and len(assigns) >= 1
+    out.append(_res("C05.S.parent_and_remembered_path_derive_from_destination", ok3 and ok4, rel,
+                    "`parent` must be destination.parent() and inner.destination only Some(destination.to_path_buf()) or None (found: %s)" % assigns))
+    # 4. confined_destination itself only pushes Normal components
+    cb, cm, cl = _fn_body(src, masked, "confined_destination")
+    ok5 = cb is not None and re.search(r"Component::Normal\(\w+\)\s*=>\s*\{\s*destination\.push\(\w+\)", cm) is not None \
+        and len(re.findall(r"\.push\(", cm)) == 1 and re.search(r"_\s*=>\s*return\s+None", cm) is not None and ".join(" not in cm
+    out.append(_res("C05.S.confined_destination_pushes_normal_components_only", ok5, rel,
+                    "confined_destination must push only Component::Normal names onto a copy of dest and return None for every other component but CurDir"))
+    return out
+
+
+# ------------------------------------------------------------------------------------------------ C09
+def s_writer_calls_only_in_contracted_functions(repo):
+    out = []
+    rel = "src/receiver/objectreceiver.rs"
+    src, masked = _load(repo, rel)
+    if src is None:
+        return [_res("C09.S.writer_calls", False, rel, "file missing", True)]
+    contracted = {"init_object_writer": {"open"}, "complete": {"complete"}, "error": {"error", "interrupted"}, "write_blocks": set()}
+    bad = []
+    for m in re.finditer(r"\.writer\s*\.\s*(open|write|complete|error|interrupted)\s*\(", masked):
+        fn = _enclosing_fn(src, masked, m.start())
+        if fn not in contracted or m.group(1) not in contracted[fn]:
+            bad.append("%s:%d .writer.%s( in fn %s" % (rel, L.line_of(src, m.start()), m.group(1), fn))
+    out.append(_res("C09.S.objectreceiver.writer_calls_only_in_monitored_functions", not bad, rel,
+                    "; ".join(bad) or "every .writer.{open,complete,error,interrupted}( call is in a function whose calls are monitored by unit objrecv"))
+    # the writer reference leaves objectreceiver.rs only towards BlockWriter::write
+    leaks = []
+    for m in re.finditer(r"\.writer\s*\.\s*as_ref\s*\(\s*\)", masked):
+        fn = _enclosing_fn(src, masked, m.start())
+        if fn != "write_blocks":
+            leaks.append("%s:%d in fn %s" % (rel, L.line_of(src, m.start()), fn))
+    out.append(_res("C09.S.objectreceiver.writer_reference_passed_only_to_blockwriter_write", not leaks, rel,
+                    "; ".join(leaks) or "the writer trait object is handed out only in write_blocks (to BlockWriter::write)"))
+    rel2 = "src/receiver/blockwriter.rs"
+    src2, masked2 = _load(repo, rel2)
+    if src2 is None:
+        return out + [_res("C09.S.blockwriter", False, rel2, "file missing", True)]
+    others = [L.line_of(src2, m.start()) for m in re.finditer(r"\bwriter\s*\.\s*(open|complete|error|interrupted|enable_md5_check)\s*\(", masked2)]
+    writes = len(re.findall(r"\bwriter\s*\.\s*write\s*\(", masked2))
+    out.append(_res("C09.S.blockwriter.only_write_is_invoked_on_the_writer", not others and writes >= 1, rel2,
+                    "blockwriter.rs invokes %d writer.write( and other writer methods at lines %s" % (writes, others)))
+    return out
+
+
+# ------------------------------------------------------------------------------------------------ C11 / C13
+def _sender_read(repo):
+    rel = "src/sender/sender.rs"
+    src, masked = _load(repo, rel)
+    if src is None:
+        return rel, None, None, None, None
+    body, mbody, line = _fn_body(src, masked, "read", "Sender")
+    return rel, src, masked, mbody, line
+
+
+def s_sender_read_polls_fdt_first(repo):
+    rel, src, masked, mbody, line = _sender_read(repo)
+    if mbody is None:
+        return [_res("C11.S.sender_read", False, rel, "Sender::read not found (lost anchor)", True)]
+    first_run = mbody.find("self.fdt_session.run(&mut self.fdt, now)")
+    loop = mbody.find("for session in")
+    ok = 0 <= first_run < loop and re.search(r"if\s+let\s+Some\(fdt_data\)\s*=\s*self\.fdt_session\.run\(&mut self\.fdt, now\)\s*\{\s*return\s+Some\(fdt_data\);", mbody[:loop]) is not None
+    return [_res("C11.S.sender_read.fdt_session_polled_before_any_file_session", ok, "%s:%d" % (rel, line),
+                 "Sender::read must poll the FDT session and return its packet before iterating over the file sessions")]
+
+
+def s_sender_read_priority_order(repo):
+    rel, src, masked, mbody, line = _sender_read(repo)
+    if mbody is None:
+        return [_res("C13.S.sender_read", False, rel, "Sender::read not found (lost anchor)", True)]
+    out = []
+    ok1 = re.search(r"sessions\s*:\s*std::collections::BTreeMap<u32,\s*SenderSessionList>", masked) is not None
+    out.append(_res("C13.S.sessions_is_a_btreemap_keyed_by_priority", ok1, rel,
+                    "Sender.sessions must be a BTreeMap<u32, SenderSessionList> (std guarantees ascending key order of iteration)"))
+    m = re.search(r"for\s+session\s+in\s+&mut\s+self\.sessions\s*\{(.*?)\n\s{8}\}", mbody, re.S)
+    ok2 = m is not None and re.search(r"let\s+data\s*=\s*Self::read_priority_queue\(fdt,\s*session\.1,\s*now\);\s*if\s+data\.is_some\(\)\s*\{\s*return\s+data;\s*\}", m.group(1)) is not None \
+        and "continue" not in m.group(1) and ".rev()" not in mbody
+    out.append(_res("C13.S.sender_read.first_queue_with_a_packet_wins", bool(ok2), "%s:%d" % (rel, line),
+                    "the loop over self.sessions must call read_priority_queue for each queue in map order and return the first packet"))
+    return out
+
+
+def s_sender_new_session_count(repo):
+    rel = "src/sender/sender.rs"
+    src, masked = _load(repo, rel)
+    if src is None:
+        return [_res("C13.S.sender_new", False, rel, "file missing", True)]
+    body, mbody, line = _fn_body(src, masked, "new", "Sender")
+    if mbody is None:
+        return [_res("C13.S.sender_new", False, rel, "Sender::new not found (lost anchor)", True)]
+    ok = re.search(r"let\s+multiplex_files\s*=\s*match\s+priority_queue_config\.multiplex_files\s*\{\s*0\s*=>\s*1,\s*n\s*=>\s*n,\s*\};", mbody) is not None \
+        and re.search(r"\(0\.\.multiplex_files\)\s*\.map\(", mbody) is not None and re.search(r"index:\s*0,\s*sessions:\s*new_sessions", mbody) is not None
+    return [_res("C13.S.sender_new.max_1_multiplex_files_sessions_per_queue", ok, "%s:%d" % (rel, line),
+                 "Sender::new must create max(1, multiplex_files) sessions per priority queue, round-robin index starting at 0")]
+
+
+# ------------------------------------------------------------------------------------------------ C15
+def s_toi_field_copies(repo):
+    checks = [
+        ("src/sender/filedesc.rs", r"let\s+toi\s*=\s*object\.config\.toi\.as_ref\(\)\.unwrap\(\)\.get\(\);", "FileDesc::new takes the TOI from the object's Toi handle"),
+        ("src/sender/filedesc.rs", r"toi:\s*self\.toi\.to_string\(\),", "to_file_xml writes FileDesc.toi into the FDT entry"),
+        ("src/sender/blockencoder.rs", r"toi:\s*self\.file\.toi,", "BlockEncoder::read copies FileDesc.toi into every Pkt"),
+        ("src/common/alc.rs", r"lct::push_lct_header\(\s*&mut data,\s*0,\s*cci,\s*tsi,\s*&pkt\.toi,", "new_alc_pkt passes Pkt.toi to push_lct_header"),
+        ("src/sender/toiallocator.rs", r"pub fn get\(&self\)\s*->\s*u128\s*\{\s*self\.value\s*\}", "Toi::get returns the allocated value"),
+        ("src/sender/toiallocator.rs", r"let\s+toi\s*=\s*db\.allocate\(\);\s*Box::new\(Toi\s*\{\s*allocator:\s*allocator\.clone\(\),\s*value:\s*toi,", "ToiAllocator::allocate wraps exactly the allocated value"),
+    ]
+    out = []
+    for rel, rx, what in checks:
+        src, masked = _load(repo, rel)
+        ok = src is not None and re.search(rx, masked) is not None
+        out.append(_res("C15.S." + re.sub(r"\W+", "_", what)[:60], ok, rel, what))
+    return out
+
+
+# ------------------------------------------------------------------------------------------------ C18
+def s_session_open_only_on_creation(repo):
+    rel = "src/receiver/multireceiver.rs"
+    src, masked = _load(repo, rel)
+    if src is None:
+        return [_res("C18.S.session_open", False, rel, "file missing", True)]
+    opens = [m.start() for m in re.finditer(r"\.on_session_open\s*\(", masked)]
+    ok = len(opens) == 1
+    if ok:
+        fn = _enclosing_fn(src, masked, opens[0])
+        seg = masked[:opens[0]]
+        k = seg.rfind("or_insert_with(|| {")
+        ok = fn == "get_receiver_or_create" and k >= 0 and "})" not in masked[k:opens[0]] and re.search(r"\.entry\(key\.clone\(\)\)\s*\.or_insert_with\(", masked) is not None
+    return [_res("C18.S.on_session_open_only_inside_or_insert_with", ok, rel,
+                 "on_session_open must be invoked at exactly one site, inside the or_insert_with closure of get_receiver_or_create (i.e. only when the key is absent)")]
